@@ -39,3 +39,26 @@ PROPS = {
 }
 
 ENGINES = {'e2e': vlib.e2e_engine}
+
+
+def _e2e(profiles, monitors, projection, nq=1500, nt=20000, extra=None):
+    d = dict(engines=['e2e'] + (extra or []),
+             e2e=[dict(profile=p, n_quick=(nq if i == 0 else max(300, nq // 3)),
+                       n_thorough=(nt if i == 0 else nt // 4)) for i, p in enumerate(profiles)],
+             monitors=monitors, projection=projection, rule=E2E_RULE, assumptions=[])
+    return d
+
+
+PROPS.update({
+    'C03': _e2e(['hit', 'inval'], ['C03'], ['outcome', 'ncalls', 'store']),
+    'C04': _e2e(['vary', 'mix'], ['C04'], ['outcome', 'ncalls', 'store']),
+    'C05': _e2e(['store', 'mix'], ['C05'], ['outcome', 'headers', 'writes']),
+    'C06': _e2e(['store', 'mix'], ['C06'], ['outcome', 'writes']),
+    'C07': _e2e(['inval'], ['C07'], ['outcome', 'ncalls', 'store']),
+    'C08': _e2e(['freshen', 'mix'], ['C08'], ['outcome', 'calls', 'store_full']),
+    'C09': _e2e(['hit', 'mix'], ['C09'], ['outcome', 'ncalls', 'cache_status']),
+    'C11': _e2e(['age', 'mix'], ['C11'], ['outcome', 'cache_status', 'age', 'ncalls']),
+    'C12': _e2e(['spell'], ['C01', 'C02', 'C06', 'C13', 'C18'], ['outcome', 'calls', 'cache_status', 'age', 'store']),
+    'C13': _e2e(['sie', 'mix'], ['C13'], ['outcome', 'calls', 'cache_status', 'age']),
+    'C19': _e2e(['vary', 'inval'], ['C19'], ['store']),
+})
